@@ -1770,6 +1770,8 @@ func runC17(c *ctx) {
 			if d := c17find(defs, f[1], f[2]); d != nil {
 				c17layer(c, d, f[3], f[4], true)
 			}
+		case len(f) == 4 && f[0] == "c17decoy":
+			c17decoy(c, adv, defs, true)
 		case len(f) == 2 && f[0] == "c17user":
 			sd, _ := strconv.ParseUint(f[1], 10, 64)
 			c17user(c, []uint64{sd}, true)
@@ -1792,6 +1794,8 @@ func runC17(c *ctx) {
 	for _, n := range adv {
 		c17load(c, n, false)
 	}
+	// 1b. the same by-name loads from a working directory full of decoy files
+	c17decoy(c, adv, defs, false)
 	// 2. fields of every embedded definition and variant
 	for _, d := range defs {
 		c17fields(c, d, false)
